@@ -432,6 +432,7 @@ let () =
       else if status <> "ok" && status <> "readerr" then Viol ("panic in " ^ name ^ ": " ^ status)
       else if intact <> "1" then
         Viol (if name = "readmessage" then "a control message payload returned by ReadMessage changed after pooled buffers were recycled"
+              else if name = "readmessage-recycle" then "a message payload returned by ReadMessage changed when the caller recycled its []Message slice for later calls"
               else "the caller's slice was modified by a write API documented as non-mutating")
       else if aliased = "1" then Viol "a client-side write handed the caller's own memory to the destination"
       else Pass true
